@@ -264,7 +264,16 @@ func runC10Race(c *core.Ctx) {
 			c.Violate("C10|registry-not-linearizable", "recorded registry history is not linearizable against a last-write register per (direction, CID):\n%v", lines)
 		}
 		if c.WantSample("race-history") {
-			c.Sample("race-history", map[string]interface{}{"keys": nk, "writers": writers, "readers": readers, "private_goroutines": private, "registry_ops": len(hist), "overlapping_pairs": overlaps, "distinct_values_read": len(seen), "gomaxprocs": runtime.GOMAXPROCS(0)})
+			sorted := append([]porcupine.Operation{}, hist...)
+			sort.Slice(sorted, func(i, j int) bool { return sorted[i].Call < sorted[j].Call })
+			var excerpt []string
+			for _, o := range sorted {
+				if len(excerpt) >= 14 {
+					break
+				}
+				excerpt = append(excerpt, fmt.Sprintf("client%d [%d,%d] %s", o.ClientId, o.Call, o.Return, regModel10.DescribeOperation(o.Input, o.Output)))
+			}
+			c.Sample("race-history", map[string]interface{}{"history_excerpt": excerpt, "keys": nk, "writers": writers, "readers": readers, "private_goroutines": private, "registry_ops": len(hist), "overlapping_pairs": overlaps, "distinct_values_read": len(seen), "gomaxprocs": runtime.GOMAXPROCS(0)})
 		}
 	}
 	lorawan.VerifResetProprietary()
